@@ -315,6 +315,7 @@ def check(pid: str, tier: str, runs: int | None = None) -> int:
     records: list[dict] = []
     harness_errors: list[str] = []
     ctx = multiprocessing.get_context("fork")
+    stop_after = int(os.environ.get("NIMASIM_STOP_AFTER_VIOLATIONS", "0") or 0)
     print("nimasim check property=%s tier=%s seed=%d runs=%d jobs=%d" % (pid, tier, batch, n, nj), flush=True)
     try:
         with ProcessPoolExecutor(max_workers=nj, mp_context=ctx) as pool:
@@ -325,6 +326,13 @@ def check(pid: str, tier: str, runs: int | None = None) -> int:
                         harness_errors.append("seed %d: %s" % (rec["seed"], rec["harness_error"]))
                     else:
                         records.append(rec)
+                if stop_after:
+                    # (tools/verify_seeded.py only: a patched copy that violates the property does not need the
+                    # whole batch; never set by a registered command)
+                    unknown = sum(1 for r in records for v in r.get("viols", []) if not match_known(Violation.from_json(v), known))
+                    if unknown >= stop_after:
+                        pool.shutdown(wait=False, cancel_futures=True)
+                        break
     except Exception as exc:  # noqa: BLE001 - pool broke / worker died / timeout
         harness_errors.append("worker pool failure: %r" % (exc,))
     records.sort(key=lambda r: r["idx"])
